@@ -17,7 +17,7 @@ CHECKS = {
     ),
     "C15": dict(
         technique="property-based differential testing: pretty_print=True vs False outputs compared as canonical trees (character-exact text in any element with non-blank text)",
-        text="Generated-input search; each form is converted in both modes and the two documents must be the same tree with identical attributes, namespaces and text (whitespace-only text ignored only between elements). Also: one mode well-formed and the other not is a difference; the survey's own file writer (print_xform_to_file) is put through the same switch; texts carry U+2028/U+2029/U+0085 and multi-line string literals.",
+        text="Generated-input search; each form is converted in both modes and the two documents must be the same tree with identical attributes, namespaces and text (whitespace-only text ignored only between elements). Also: one mode well-formed and the other not is a difference; the survey's own file writer (print_xform_to_file) is put through the same switch; the file-to-file entry point xls2xform_convert() is run in both modes for a quarter of the cases; texts carry U+2028/U+2029/U+0085, multi-line string literals and quotations of the serialiser's own markup (xmlns declarations, tags, '?>').",
         design_ref="DESIGN.md §4 C15",
         note="Both outputs parsed by libxml2; generator weighted to mixed text/output content and significant spaces.",
     ),
@@ -89,7 +89,7 @@ CHECKS = {
     ),
     "C06": dict(
         technique="property-based testing with an adversarial text alphabet: per-channel round-trip oracle (parser-recovered text == source cell modulo documented normalisations) and a metamorphic skeleton-invariance oracle (same form with benign text must give the same element/attribute-name tree)",
-        text="Random small forms with every text-bearing channel filled with XML metacharacters, entity/CDATA/comment fragments, quotes, braces, astral/RTL/NBSP/ZWJ characters and significant whitespace, with and without embedded references, in 0-3 languages; attribute-borne text (messages, custom attributes, version) must come back exactly, TAB/LF/CR included; a form may not be refused because of its text (compared with the same form with benign text); a share of forms runs with clean_text_values=no. The run is inconclusive (exit 2) if any channel was never exercised.",
+        text="Random small forms with every text-bearing channel filled with XML metacharacters, entity/CDATA/comment fragments, quotes, braces, astral/RTL/NBSP/ZWJ characters and significant whitespace, with and without embedded references, in 0-3 languages; attribute-borne text (messages, custom attributes, version) must come back exactly, TAB/LF/CR included; a form may not be refused because of its text (compared with the same form with benign text); a share of forms runs with clean_text_values=no; a dedicated clause puts adversarial choice labels (backslashes, %, regex-template sequences) through the legacy loop's %(label)s/%(name)s substitution. The run is inconclusive (exit 2) if any channel was never exercised.",
         design_ref="DESIGN.md §4 C06",
         note="Characters XML 1.0 cannot represent are outside this alphabet (see C01 edge probes). The literal label '-' is indistinguishable from the itext placeholder by design.",
     ),
@@ -114,7 +114,7 @@ CHECKS = {
     "C18": dict(
         level="fault_enumeration",
         technique="fault-injection enumeration plus property-based generation: a scripted stand-in for the java executable on PATH (exit code, stderr, self-kill, sleep), a private TMPDIR and the working tree's CLI run as a subprocess; oracle = restated verdict table (codes 100/101/999, exception types, output file equal to the library result or untouched/removed, itemsets.csv) + expected cleaned message constructed by the stderr line grammar + empty TMPDIR and output directory",
-        text="The full product validator outcome {exit 0 silent, exit 0 + stderr, exit n>0 + stderr, killed by signal, java absent, real java + corrupt jar} x entry {library validate=True, CLI default, --json, --skip_validate, --odk_validate} x form {valid, valid with warnings, external choices, invalid} x output file {absent, pre-existing} is run on every quick run (240 cells; thorough doubles it with --pretty_print and adds the 100 s watchdog), then generated cases vary the stderr text (instance paths, kept paths, exception prefixes, stack lines, adjacent duplicates, non-ASCII), the exit status (1, 2, 3, 134, 255), the form (generated, md or xlsx) and the cell. A share of the CLI runs happens in a process whose locale encoding is not UTF-8 (standard streams kept UTF-8): the XForm file must still be the library result.",
+        text="The full product validator outcome {exit 0 silent, exit 0 + stderr, exit n>0 + stderr, killed by signal, java absent, real java + corrupt jar} x entry {library validate=True, CLI default, --json, --skip_validate, --odk_validate} x form {valid, valid with warnings, external choices, invalid} x output file {absent, pre-existing} is run on every quick run (240 cells; thorough doubles it with --pretty_print and adds the 100 s watchdog), then generated cases vary the stderr text (instance paths, kept paths, exception prefixes, stack lines, adjacent duplicates, non-ASCII), non-adjacent repeats of a line, stack traces thousands of frames deep and lists of thousands of findings, the exit status (1, 2, 3, 134, 255), the form (generated, md or xlsx) and the cell. Histories: every ordered pair of validator outcomes {silent, warnings, reject, killed} on the same form and on two forms (plus triples and sampled longer ones) is run as several validated conversions in ONE process, each call judged on its own. A share of the CLI runs happens in a process whose locale encoding is not UTF-8 (standard streams kept UTF-8): the XForm file must still be the library result.",
         design_ref="DESIGN.md §4 C18",
         note="The stand-in records whether it was started, so --skip_validate and invalid forms are checked not to start it. Enketo is not exercised. Python-side crash points are not enumerated.",
     ),
